@@ -13,7 +13,7 @@ from ..classtable import ClassTable, builtin_has, type_candidates
 from ..jinja_model import Config, Specialiser, TemplateModel, TypingShapes, jtext, parse_residual
 from ..refsrc import Reference
 from ..src import (AnalysisError, M_CLIENT, M_LIB_STD, M_LIB_STD_COMPILER, M_MODELS, M_SERVER, M_TYPING, T_BODY, T_HEADER)
-from ..sym import A, C, N, dotted, show
+from ..sym import A, C, N, dotted, show, walk as _walk
 
 _cache: Dict[int, Any] = {}
 
@@ -550,6 +550,47 @@ def rule_G(ctx) -> None:
         ctx.proved("G7", "_call_rpc_handler_server_stream:sends-each-message", srv.loc(sf))
     else:
         ctx.refuted("G7", "_call_rpc_handler_server_stream:sends-each-message", "shape", srv.loc(sf), "the server-streaming helper does not send exactly each yielded message once, in order")
+
+
+def rule_G11(ctx, rule: str = "G11") -> None:
+    """the stub-level defaults are kept as given: what ServiceStub.__init__ stores for timeout / deadline / metadata is a function
+    of that one parameter only.  G5 proves that a call resolves `self.<key> if <key> is None else <key>`; that is the stated
+    precedence only while self.<key> is the caller's own default for that key - a timeout folded into the stored deadline (or a
+    clock read at construction) caps calls that pass their own, longer, timeout"""
+    client = ctx.repo.mod(M_CLIENT)
+    fn = client.func("ServiceStub.__init__")
+    ctx.analysed("ServiceStub.__init__")
+    paths = Interp(client, fork_ifexp=True).run(fn)
+    ctx.count(len(paths))
+    keys = ("timeout", "deadline", "metadata")
+    bad: Dict[str, str] = {}
+    stored: Dict[str, int] = {k: 0 for k in keys}
+    for p in paths:
+        if p.outcome == "raise":
+            continue
+        last: Dict[str, Any] = {}
+        for e in p.events:
+            if e.kind == "store" and e.data[0][0] == "a" and e.data[0][1] == N("self") and e.data[0][2] in keys:
+                last[e.data[0][2]] = e.data[1]
+        for k in keys:
+            if k not in last:
+                bad.setdefault(k, f"on {p.val_text() or 'the only path'} self.{k} is not stored")
+                continue
+            stored[k] += 1
+            v = last[k]
+            others = sorted({t[1] for t in _walk(v) if t[0] == "n" and t[1] in keys and t[1] != k})
+            clock = sorted({dotted(t[1]) for t in _walk(v) if t[0] == "call" and dotted(t[1]).split(".")[-1] in ("from_timeout", "time", "monotonic", "now")})
+            if others or clock:
+                bad.setdefault(k, f"on {p.val_text() or 'the only path'} self.{k} = {show(v)[:120]}: it depends on {' and '.join(['the ' + o + ' parameter' for o in others] + ['the clock at construction (' + c + ')' for c in clock])}, "
+                               f"so the stub-level {k} that a call falls back to is not the one the caller configured: a call-level {'timeout' if 'timeout' in others else others[0] if others else k} no longer takes precedence over it")
+            elif k not in {t[1] for t in _walk(v) if t[0] == "n"}:
+                bad.setdefault(k, f"on {p.val_text() or 'the only path'} self.{k} = {show(v)[:80]} does not come from the {k} parameter")
+    for k in keys:
+        name = f"stub-default-kept[{k}]"
+        if k in bad:
+            ctx.refuted(rule, name, "not-kept", client.loc(fn), bad[k], f"stub = Stub(ch, timeout=0.05); await stub.rpc(req, timeout=5)   # handler sleeps 0.2 s")
+        else:
+            ctx.proved(rule, name, client.loc(fn), f"{stored[k]} paths store a value built from the {k} parameter alone")
 
 
 def rule_G9(ctx, rule: str = "G9") -> None:
